@@ -13,6 +13,8 @@ def spec(tier, seed):
              "run": lambda f, v, w: _mir.vc_backup_window(f, v, w, r"^save_files_worker$", "c08p")},
             {"name": "rollback_and_save_backup_files: window lower bound; both names of a rename", "function": "rollback_and_save_backup_files", "target": "bin",
              "run": lambda f, v, w: _mir.vc_backup_loop(f, v, w)},
+            {"name": "save_backup_file: the backup gets the file's permissions through set_permissions before its content", "function": "save_backup_file", "target": "bin",
+             "run": lambda f, v, w: _mir.vc_backup_keeps_mode(f, v, w)},
             {"name": "cmd_push: applied-patches gets exactly series[0..applied]", "function": "cmd_push", "target": "bin",
              "run": lambda f, v, w: _mir.vc_applied_patches_recorded(f, v, w)},
         ],
